@@ -443,3 +443,101 @@ func VerifC04_CascadeOverSelfAndCyclicReferences() {
 		}
 	})
 }
+
+// a second referrer store with a cascading fk constraint onto depts
+type vCrewStore struct {
+	*BaseStore[*vTeam]
+}
+
+func verifNewCrewStore(dept *vDeptStore) *vCrewStore {
+	def := StoreDefinition[*vTeam]{
+		EntityType:      vTeamType,
+		EntityStrategy:  vTeamStrategy{},
+		EntityNotFoundF: func(id string) error { return NewNotFoundError(vTeamType, "id", id) },
+		BasePath:        []string{vRootPath},
+	}
+	s := &vCrewStore{BaseStore: NewBaseStore(def)}
+	s.InitImpl(s)
+	s.AddIdSymbol("id", ast.NodeTypeString)
+	lead := s.AddFkSymbol("lead", dept)
+	s.AddFkConstraint(lead, true, CascadeDelete)
+	return s
+}
+
+// VerifC04_CascadeFromSeveralStoresAndRepeatedly: a dept is referenced with
+// cascading deletes from two stores (emps.boss, per wiring; crews.lead, fk
+// constraint). One transaction deletes it, re-creates it together with new
+// referrers of both kinds and deletes it again: each delete removes exactly
+// the referrers of both stores; entities referencing the other dept stay.
+func verifC04CascadeSeveral(cfg vStoreCfg) {
+	cfg.fkToDept = true
+	cfg.nickNullable = true
+	env := verifNewEnv(cfg)
+	defer env.close()
+	crews := verifNewCrewStore(env.dept)
+	env.createDepts("x", "xy")
+	x, xy := "x", "xy"
+	refs := func(b bool) *string {
+		if b {
+			return &x
+		}
+		return &xy
+	}
+	empX, crewX := verifrt.Bool("emp.refs.x"), verifrt.Bool("crew.refs.x")
+	err := env.update(func(ctx MutateContext) error {
+		if err := env.emp.Create(ctx, verifEmpFor("a", refs(empX), cfg)); err != nil {
+			return err
+		}
+		return crews.Create(ctx, &vTeam{Id: "t", Lead: refs(crewX)})
+	})
+	verifrt.Assert(err == nil, "C04 several-stores population setup succeeds")
+	again := verifrt.Bool("again")
+	emp2X, crew2X := verifrt.Bool("emp2.refs.x"), verifrt.Bool("crew2.refs.x")
+	err = env.update(func(ctx MutateContext) error {
+		if err := env.dept.DeleteById(ctx, "x"); err != nil {
+			return err
+		}
+		if !again {
+			return nil
+		}
+		// the same transaction (same context): x comes back with new referrers and goes again
+		if err := env.dept.Create(ctx, &vDept{Id: "x", Label: "L"}); err != nil {
+			return err
+		}
+		if err := env.emp.Create(ctx, verifEmpFor("ab", refs(emp2X), cfg)); err != nil {
+			return err
+		}
+		if err := crews.Create(ctx, &vTeam{Id: "u", Lead: refs(crew2X)}); err != nil {
+			return err
+		}
+		return env.dept.DeleteById(ctx, "x")
+	})
+	verifrt.Assert(err == nil, "C04 cascading deletes from several stores succeed")
+	env.view(func(tx *bbolt.Tx) {
+		_, found, _ := env.dept.FindById(tx, "x")
+		verifrt.Assert(!found, "C04 the deleted target is gone")
+		_, found, _ = env.emp.FindById(tx, "a")
+		verifrt.Assert(found == !empX, "C04 cascade removes exactly the referring emps")
+		_, found, _ = crews.FindById(tx, "t")
+		verifrt.Assert(found == !crewX, "C04 cascade reaches every referring store")
+		if again {
+			_, found, _ = env.emp.FindById(tx, "ab")
+			verifrt.Assert(found == !emp2X, "C04 a second cascading delete of the same id in the same transaction removes its new referring emps")
+			_, found, _ = crews.FindById(tx, "u")
+			verifrt.Assert(found == !crew2X, "C04 a second cascading delete of the same id in the same transaction reaches every referring store")
+		}
+		verifrt.Assert(!verifScanForId(tx, "x"), "C06 after cascading deletes the target's id occurs nowhere")
+	})
+}
+
+func VerifC04_CascadeFromSeveralStoresFkIndex() {
+	verifC04CascadeSeveral(vStoreCfg{fk: vFkIndexCascade})
+}
+func VerifC04_CascadeFromSeveralStoresFkConstraint() {
+	verifC04CascadeSeveral(vStoreCfg{fk: vFkConstraintCascade})
+}
+
+func init() {
+	verifQueryFamilies = append(verifQueryFamilies, func() []string { return []string{`lead = "x"`, `lead = "xy"`} })
+	ast.VerifTemplates = append(ast.VerifTemplates, `lead = "__VERIF_LIT__"`)
+}
